@@ -59,6 +59,9 @@ func genSess(seed uint64, prop string) *Scenario {
 	g := newGen(seed, 0x73657374, &sc.Cfg)
 	nsess := 2 + r.IntN(3)
 	nsteps := 4 + r.IntN(16)
+	if deepSeed(seed) && r.IntN(3) == 0 {
+		nsess, nsteps = 3+r.IntN(4), 20+r.IntN(40)
+	}
 	if r.IntN(4) == 0 {
 		nsteps = 2 + r.IntN(4)
 	}
